@@ -318,7 +318,7 @@ func newExec(t *testing.T) func([]string) string {
 			}
 			return fmt.Sprintf("%s %s %s", n, optHex(p256.Normalize(sig)), optHex(p256.Swap(sig)))
 		}
-		return "bad-op"
+		return execPem(a) // the PEM layer: pem_test.go
 	}
 }
 
@@ -712,6 +712,7 @@ func gen(r *hlib.Rand, n int, tier, profile string, emit func(string, ...any)) {
 	for _, sig := range cl.BoundarySigs(r) {
 		emit("norm %s", hlib.Hex(sig))
 	}
+	genPem(r, n, emit) // the PEM layer: pem_test.go
 }
 
 func TestEngine(t *testing.T) {
